@@ -5,7 +5,7 @@
 //!   C04 bp <ctor> <words> <len> <op> <positions>     methods of `BalancedParens`
 //!   C04 idx <ctor> <words> <len>                     built index arrays (hook `index_view`)
 //!   C04 free <words> <len> <fc|fo|enc> <positions>   `trees::{find_close,find_open,enclose}`, |words| = ceil(len/64)
-//!   C04 surplus <words> <len> fc <positions>         same, with whole words beyond ceil(len/64) (finding F1 probe)
+//!   C04 surplus <words> <len> fc <positions>         same, with whole words beyond ceil(len/64) (finding F1, repaired)
 //!   C04 wk <word> <valid_bits>                       word_min_excess / _i32 (/_unrolled, max_excess_rev when 64)
 //!   C04 fcw <word> <start_bit> <excess> <valid_bits> find_close_in_word_fast
 //!   C04 l1b <mins> <excs> <num_l1>                   L1 builder (SSE4.1 in the `simd` build, scalar reference otherwise)
@@ -567,18 +567,34 @@ pub fn gen(tier: Tier, r: &mut Rng, emit: &mut dyn FnMut(String)) {
         // find_close_from with other start excesses
         let e = r.range(0, 5) as i64 - 1;
         emit(format!("C04 bp {ctor} {hw} {len} fcf:{e} {pl}"));
-        // surplus whole words beyond ceil(len/64): finding F1 probe (only where the outcome cannot
-        // be an unbounded loop: len % 64 == 0, or len % 8 != 0)
-        if len > 0 && (len % 64 == 0 || len % 8 != 0) && i % 3 == 0 {
+        // surplus whole words beyond ceil(len/64) (finding F1, repaired): every class of len,
+        // including len % 8 == 0 && len % 64 != 0, where the unrepaired code ran a ~2^32-step
+        // loop and returned a position beyond len instead of panicking (few positions there, so
+        // that a run against an unrepaired tree still terminates)
+        if len > 0 && i % 3 == 0 {
             let mut ws2 = ws.clone();
             for _ in 0..r.range(1, 3) {
                 ws2.push(*r.pick(&[0u64, u64::MAX, 0x5555_5555_5555_5555]));
             }
             let hw2 = hex_words(&ws2);
-            for p in 0..len.min(24) {
+            let slow_class = len % 8 == 0 && len % 64 != 0;
+            let npos = if slow_class { 2 } else { 24 };
+            for p in 0..len.min(npos) {
                 emit(format!("C04 surplus {hw2} {len} fc {p}"));
             }
         }
+    }
+
+    // ---- former slow class of F1: len % 8 == 0, len % 64 != 0, surplus words, scan running off the end
+    for (k, len) in [8usize, 16, 24, 40, 72, 120, 136].into_iter().enumerate() {
+        let nw = len.div_ceil(64);
+        let mut ws2: Vec<u64> = (0..nw).map(|_| if k % 2 == 0 { u64::MAX } else { r.next_u64() | 1 }).collect();
+        ws2.push(0);
+        if k % 3 == 0 {
+            ws2.push(u64::MAX);
+        }
+        emit(format!("C04 surplus {} {len} fc 0", hex_words(&ws2)));
+        emit(format!("C04 free {} {len} fc+fo+enc 0,1,{}", hex_words(&ws2), len - 1));
     }
 
     // ---- every residue mod 64 at a few sizes, all six plain constructors
